@@ -304,6 +304,30 @@ def check(F, rep, tier):
             elif ctors: rep.bad("R06.8", "integer-classified-with:%s:%s" % (short, "+".join(sorted(ctors))), "%s decides that a core component is an integer on text produced by Sanitizer::%s instead of the integer sanitiser: text that only becomes digits after sanitising (e.g. '#42') is placed as a number" % (short, sorted(ctors)), site)
             else: rep.undecided("R06.8", "integer-classification:" + short, "cannot relate the parsed text to a resolve_value(.., sanitizer) call", site)
         rep.floor("R06.8", "core-number parses in %s" % short, n, 1)
+    # ---- R06.10 the tier builders of the two preset families are siblings: same extra-core list per tier -----------------------------
+    tiers = {}
+    for p_, g_ in F.fns.items():
+        m_ = re.search(r"ZervSchemaPreset::(standard|calver)_base(_[a-z_]*)?_schema$", p_)
+        if not m_ or g_.kind == "closure": continue
+        fam, tier = m_.group(1), (m_.group(2) or "")
+        gi_ = g_
+        for bi, t in gi_.calls():
+            if (mir.callee(t) or "").endswith("ZervSchema::new_with_precedence") and len(t[2]) >= 3:
+                def gen(a):
+                    ns = sorted({(mir.callee(o.fn.blocks[o.data]["t"]) or "?").rsplit("::", 1)[-1] if o.kind == "call" else o.kind for o in mir.trace_op(gi_, a)})
+                    return "+".join(ns)
+                tiers.setdefault(tier, {})[fam] = (gen(t[2][0]), gen(t[2][1]), g_)
+    ntier = 0
+    for tier, fams in sorted(tiers.items()):
+        if set(fams) != {"standard", "calver"}: continue
+        ntier += 1
+        (sc, se, sg), (cc, ce, cgf) = fams["standard"], fams["calver"]
+        if se != ce: rep.bad("R06.10", "tier-extra-core-differs:" + (tier or "_base"), "the %s tier prints %s after the core in the standard family but %s in the calver family: the same repository state shows different pre-release / post / dev parts depending on the family (a dev number appears in a post-only tier, or the reverse)" % (tier.strip("_") or "base", se, ce), cgf.where())
+        else: rep.ok("R06.10", "tier %s: both families use %s" % (tier.strip("_") or "base", se), nontrivial_key="tier" + tier)
+    rep.floor("R06.10", "preset tiers present in both families", ntier, 4)
+    import c17 as _c17
+    _c17.naive_datetime_rule(F, rep, "R06.10")          # a set ts(..) component contributes its value for every pattern validation accepts
+    core.borrow(F, rep, "c01", "C01", "R06.10", ("R01.6:",), "the PEP 440 release is never empty: a 0 is supplied exactly when no core component produced a number")
     # ---- R06.9 a custom component is looked up by its dotted key, part by part ------------------------------------------------
     gcv = F.fn("crate::version::zerv::vars::ZervVars::get_custom_value")
     if rep.anchor("R06.9", "ZervVars::get_custom_value", gcv):
